@@ -203,6 +203,20 @@ CHECKS["C13"] = dict(
         "driven by the harness, not by a runner thread.",
    design="6/C13", technique=TECH)
 
+CHECKS["C15"] = dict(
+   text=("CallIdentity.tla: the identity encoding (sorted, JSON-quoted key=value;) over an alphabet containing the separators "
+         "and the quote is injective and independent of the order of writing (the unquoted concatenation is the expected "
+         "counterexample). DataPath.tla: size routing and the content-addressed external store: RoundTrip, SameContentSameRef, "
+         "Immutable, Routing. Real code: every serializer x threshold x disable / max-size / per-argument no-cache option x "
+         "family, values generated recursively in each serializer's domain (sizes around the threshold), travelling client -> "
+         "store -> worker application -> store -> client; every spelling of a call; generated pairs of argument dictionaries "
+         "(equal, permuted, one value changed, separators and quotes shifted between key and value) through tasks and through "
+         "compute_args_id; every serialize / resolve of the client data store recorded. DataPathTrace.tla steps the store model "
+         "and evaluates Routing, Immutable, SameContentSameRef, RoundTrip, Unchanged, SpellingsSameIdentity, IdentityIffEqual."),
+   note="Value equality is decided by a type-aware digest computed in the harness (data fidelity is outside what a TLA+ model "
+        "can say; TLC compares digests and steps the store); SHA-256 is assumed collision-free.",
+   design="6/C15", technique=TECH)
+
 NOT_YET = {}
 
 def main() -> None:
